@@ -47,6 +47,12 @@ fn payload(ctx: &mut Ctx, len: usize) -> Vec<u8> {
 // ------------------------------------------------------------------------------------ C17
 /// all read paths of the real code on a file image; returns the canonical outcome line and
 /// whether any path returned Ok with (hdr, stored) different from `orig` (if given)
+thread_local! {
+    /// segment size DECLARED to `Writer::open` by the next `outcomes` call (0 = the image length).
+    /// Real callers pass the configured segment size, which exceeds the length of a file cut short.
+    static DECLARED_SIZE: std::cell::Cell<usize> = const { std::cell::Cell::new(0) };
+}
+
 fn outcomes<const H: usize>(dir: &Path, bytes: &[u8], start: usize, orig: Option<(&[u8], &[u8], bool)>) -> (String, Option<String>) {
     let path = dir.join("img.seg");
     std::fs::write(&path, bytes).unwrap();
@@ -87,7 +93,8 @@ fn outcomes<const H: usize>(dir: &Path, bytes: &[u8], start: usize, orig: Option
     }));
     if it.is_none() { fin = "!panic".into(); }
     // recovery scan
-    let o = match catch(|| Writer::<H>::open(&path, bytes.len().max(start + 1), start as u64).map(|w| w.write_offset())) {
+    let declared = DECLARED_SIZE.with(|d| d.replace(0)).max(bytes.len()).max(start + 1);
+    let o = match catch(|| Writer::<H>::open(&path, declared, start as u64).map(|w| w.write_offset())) {
         None => "panic".to_string(), Some(Ok(o)) => o.to_string(), Some(Err(_)) => "err".into() };
     let mut line = format!("R={r} I=[{}]{} O={o}", items.join(","), fin);
     // the sequential and parse_record paths are reported only when they deviate from the random path
@@ -167,8 +174,11 @@ fn c17_record<const H: usize>(ctx: &mut Ctx, dir: &Path, dlen: usize, compress: 
     for k in ks {
         if k > bytes.len() { continue; }
         let img = &bytes[..k];
+        // the file is physically cut short; the writer is reopened with the configured size
+        DECLARED_SIZE.with(|d| d.set(bytes.len() + 64));
         let (line, bad) = outcomes::<H>(dir, img, start, Some((&hdr, &stored, comp)));
         let top = format!("sl trunc {k}");
+        if line.contains("O=err") || line.contains("O=panic") { ctx.oracle_fail(&format!("C17:trunc-reopen H={H} k={} rlen={rlen}", k - start), &format!("a writer reopened on the segment cut to {k} bytes (configured size {}) does not resume after the last intact record: {line}", bytes.len() + 64), &[op.clone(), top.clone()]); }
         if let Some(w) = bad { ctx.oracle_fail(&format!("C17:trunc H={H} k={} rlen={rlen}", k - start), &w, &[op.clone(), top.clone()]); }
         if k < start + rlen && line.starts_with("R=ok") { ctx.oracle_fail(&format!("C17:trunc H={H} k={} rlen={rlen}", k - start), "truncated record returned as valid", &[op.clone(), top.clone()]); }
         if line.contains("panic") { ctx.oracle_fail(&format!("C17:trunc-panic H={H} k={}", k - start), &format!("a read path panicked: {line}"), &[op.clone(), top.clone()]); }
